@@ -106,7 +106,7 @@ func TestC05Stateful(t *testing.T) {
 						h.Mark("name-reused-after-delete")
 					}
 				}
-				b = w.mkBlob(rapid.IntRange(0, 3).Draw(rt, "owner"), rapid.SampledFrom([]int{0, 3}).Draw(rt, "off"), 1000+salt, name)
+				b = w.mkBlob(rapid.IntRange(0, 3).Draw(rt, "owner"), rapid.SampledFrom([]int{0, 3, 4, 5, 200}).Draw(rt, "off"), 1000+salt, name)
 			}
 			per := fee
 			if b.name != "" {
